@@ -387,7 +387,7 @@ func ruleInfo(rule string) RuleFn {
 		for _, fn := range c.P.Funcs {
 			an.Instrs(fn, func(in ssa.Instruction) {
 				al, ok := in.(*ssa.Alloc)
-				if !ok || al.Comment != "complit" {
+				if !ok || !isConstruction(al) {
 					return
 				}
 				var want map[string]string
@@ -437,8 +437,17 @@ func ruleInfo(rule string) RuleFn {
 				for _, r := range an.Referrers(al) {
 					if st, ok := r.(*ssa.Store); ok && st.Val == ssa.Value(al) && m != nil {
 						a := an.Norm(st.Addr)
-						if strings.HasSuffix(a, "[("+m[2]+" + 1)]") && (strings.Contains(a, ".Inputs[") || strings.Contains(a, ".Outputs[")) {
+						if !strings.HasSuffix(a, "[("+m[2]+" + 1)]") {
+							continue
+						}
+						if strings.Contains(a, ".Inputs[") || strings.Contains(a, ".Outputs[") {
 							okIdx = true
+						}
+						// ... or into a local slice that becomes the Info slice
+						if ia, isIA := st.Addr.(*ssa.IndexAddr); isIA {
+							if ms, isMS := an.Resolve(ia.X).(*ssa.MakeSlice); isMS && flowsToInfoSlice(fn, ms) {
+								okIdx = true
+							}
 						}
 					}
 				}
@@ -462,7 +471,7 @@ func ruleInfo(rule string) RuleFn {
 				if fa, isFA := st.Addr.(*ssa.FieldAddr); !isFA || !(an.IsDigNamed(fa.X.Type(), "ProvideInfo") || an.IsDigNamed(fa.X.Type(), "DecorateInfo") || an.IsDigNamed(fa.X.Type(), "InvokeInfo")) {
 					return
 				}
-				ms, ok := st.Val.(*ssa.MakeSlice)
+				ms, ok := an.Resolve(st.Val).(*ssa.MakeSlice)
 				if !ok {
 					c.Bad(rule, nm+": Info slice is freshly made", "Info slice assigned from "+an.Norm(st.Val), st, nil)
 					return
@@ -670,7 +679,13 @@ func ruleViz(rule string) RuleFn {
 				for i, v := range varargs(k) {
 					nArgs++
 					s := an.Norm(v)
-					good := strings.HasPrefix(s, "iface(strconv.Quote(") || s == "iface(p:index)" || s == "iface(p:idx)" ||
+					isConstStr := false
+					if mi, ok := v.(*ssa.MakeInterface); ok {
+						if kc, ok := an.Resolve(mi.X).(*ssa.Const); ok && kc.Value != nil {
+							isConstStr = true
+						}
+					}
+					good := isConstStr || strings.HasPrefix(s, "iface(strconv.Quote(") || s == "iface(p:index)" || s == "iface(p:idx)" ||
 						strings.HasSuffix(s, ".Attributes())") || strings.HasSuffix(s, ".Color())")
 					if !good {
 						if mi, ok := v.(*ssa.MakeInterface); ok {
@@ -803,6 +818,13 @@ func ruleViz(rule string) RuleFn {
 				if h == nil && plainPred == opt[0].From {
 					good = true
 				}
+				// or: the plain value, too, arrives through a block of its own, reachable only over the false edge
+				optF := an.BoolEdges(fn, func(v ssa.Value) bool { return strings.HasSuffix(an.Norm(v), ".Optional") && strings.HasPrefix(an.Norm(v), "p:c.Params[") }, false)
+				if h == nil && plainPred != opt[0].From && len(optF) == 1 {
+					if h2, _ := an.PathTo(fn, nil, an.IsInstr(plainPred.Instrs[0]), an.NewGates().AddEdges(optF...)); h2 == nil {
+						good = true
+					}
+				}
 			})
 			c.Check(good, rule, "visualizeCtor: an edge is dashed exactly when the dependency is optional", "style = \" style=dashed\" iff p.Optional", "the dashed style is no longer tied to p.Optional in both directions", nil, nil)
 		}
@@ -852,6 +874,22 @@ func constFmt(k ssa.CallInstruction) string {
 	for _, a := range k.Common().Args {
 		if cst, ok := a.(*ssa.Const); ok && cst.Value != nil && cst.Type().String() == "string" {
 			s := cst.Value.ExactString()
+			// a verb whose argument is a constant string is part of the format (a helper parameterised by a literal)
+			va := varargs(k)
+			i := 0
+			s = regexp.MustCompile(`%[+#]?[a-zA-Z]`).ReplaceAllStringFunc(s, func(verb string) string {
+				defer func() { i++ }()
+				if i < len(va) {
+					if mi, ok := va[i].(*ssa.MakeInterface); ok {
+						if kc, ok := an.Resolve(mi.X).(*ssa.Const); ok && kc.Value != nil && (verb == "%s" || verb == "%v") {
+							if str := kc.Value.ExactString(); len(str) >= 2 && str[0] == '"' {
+								return strings.Trim(str, `"`)
+							}
+						}
+					}
+				}
+				return verb
+			})
 			if len(s) > 60 {
 				s = s[:60] + "…"
 			}
@@ -1240,4 +1278,50 @@ func isScopeAccessor(short, what string) bool {
 	}
 	rest := short[len(pre):]
 	return strings.HasSuffix(rest, what) || strings.HasSuffix(rest, what+"s")
+}
+
+// isConstruction: an allocation that is initialised field by field in place -
+// a composite literal, or new(T)/var x T followed by field stores. A bare
+// new(T) handed to errors.As is not a construction.
+func isConstruction(al *ssa.Alloc) bool {
+	if al.Comment == "complit" {
+		return true
+	}
+	if al.Comment == "varargs" {
+		return false
+	}
+	for _, r := range an.Referrers(al) {
+		if fa, ok := r.(*ssa.FieldAddr); ok {
+			for _, rr := range an.Referrers(fa) {
+				if st, ok := rr.(*ssa.Store); ok && st.Addr == ssa.Value(fa) {
+					return true
+				}
+			}
+		}
+	}
+	return false
+}
+
+// flowsToInfoSlice: the freshly made slice ms is what gets stored into an
+// Inputs/Outputs field of an Info struct in fn.
+func flowsToInfoSlice(fn *ssa.Function, ms *ssa.MakeSlice) bool {
+	found := false
+	an.Instrs(fn, func(in ssa.Instruction) {
+		st, ok := in.(*ssa.Store)
+		if !ok {
+			return
+		}
+		fa, ok := st.Addr.(*ssa.FieldAddr)
+		if !ok {
+			return
+		}
+		f := an.FieldName(fa.X.Type(), fa.Field)
+		if f != "Inputs" && f != "Outputs" {
+			return
+		}
+		if an.Resolve(st.Val) == ssa.Value(ms) {
+			found = true
+		}
+	})
+	return found
 }
